@@ -11,7 +11,7 @@ print(f"""You are helping to evaluate a verification effort by playing the adver
 
 The library is bbockelm/cedar (Go implementation of HTCondor's CEDAR protocol). You have your own scratch git worktree of it at `{wt}` (detached HEAD). Work ONLY inside that directory (and /tmp/{pid.lower()}-scratch if you need one). Do not read or write anything under /verif or /repo — your work must be independent of the verification machinery, which you must not look at.
 
-Environment for every shell call: `. /verif/bin/env.sh` is NOT allowed for you (it lives under /verif); instead run: `export PATH=/opt/veriftools/go1.26.8/bin:$PATH GOTOOLCHAIN=local GOFLAGS=-mod=mod GOPROXY=off; unset GOWORK`. There is no network. Build: `go build ./...`. Tests: `go test -vet=off -count=1 ./...` (about 1.5 minutes; the message package takes ~30 s).
+Environment for every shell call: run `export PATH=/opt/veriftools/go1.26.8/bin:$PATH GOTOOLCHAIN=local GOFLAGS=-mod=mod GOPROXY=off; unset GOWORK`. There is no network. Build: `go build ./...`. Tests: `go test -vet=off -count=1 ./...` (about 1.5 minutes; the message package takes ~30 s).
 
 THE PROPERTY (id {pid}) — {p['title']}
 Statement: {p['statement']}
@@ -28,7 +28,7 @@ Produce up to {n} DIFFERENT changes (different code sites or different failure m
  4. comes with a demonstration: a new Go test file (or small program) that FAILS with the change applied and PASSES on the unchanged code. Keep the demonstration deterministic.
 Prefer variety: e.g. a check dropped on one rarely-taken path, a guard whose polarity or operand is subtly wrong, state updated in the wrong order, a value taken from the peer instead of local state, a second code path that bypasses a choke point, a bound that is off by a constant, a cleanup skipped on an error exit.
 
-For each change i (1..{n}) leave these files in `{wt}/.mut/{{i}}/`:
+For each change i (1..{n}) leave these files in `{wt}/.mut/<i>/`:
   - `patch.diff`  — `git diff` of the library change only (no test files), relative to the worktree root;
   - the demonstration test file(s), with a note of where they must be placed (path relative to the repo root) in `README.md`;
   - `README.md` — which clause of the property breaks, what exactly is needed for it to manifest, the exact commands you ran and their outcome (suite passes with the change: yes/no; demonstration fails with the change and passes without: yes/no).
